@@ -45,7 +45,7 @@ type Rule struct {
 // Ctx collects the obligations of one property run.
 type Ctx struct {
 	// Frozen: StartRule is a no-op (obligations of an embedded property run land in the current rule).
-	Frozen bool
+	Frozen  bool
 	Prop    string
 	P       *Prog
 	Obls    []Obligation
